@@ -30,7 +30,13 @@ fn parse_list<T: std::str::FromStr>(s: &str) -> Vec<T> where T::Err: std::fmt::D
 pub fn gen(seed: u64, n: usize, out: &mut String) {
     let mut r = Rng::new(seed ^ 0xC47);
     for i in 0..n {
-        if i % 2 == 0 {
+        if i % 8 == 7 {
+            // a stream of StreamInfo::new plus 0..4 further metadata blocks (no frames): count_bits of the stream
+            let k = r.below(5);
+            let blocks: Vec<String> = (0..k).map(|_| format!("{}:{}", 1 + r.below(126), match r.below(4) { 0 => 0, 1 => 1 + r.below(4), 2 => 100 + r.below(400), _ => r.below(40) })).collect();
+            writeln!(out, "CNT c{} M {} {} {} {}", i, *r.pick(&[8000usize, 44100, 96000]), 1 + r.below(8), *r.pick(&[8usize, 12, 16, 20, 24]),
+                     if blocks.is_empty() { "-".to_string() } else { blocks.join(",") }).unwrap();
+        } else if i % 2 == 0 {
             let order = r.below(5) as usize;
             let part = *r.pick(&[1usize, 2, 3, 16, 64, 65]);
             let block = part << order;
@@ -57,7 +63,11 @@ pub fn gen(seed: u64, n: usize, out: &mut String) {
             let bps = *r.pick(&[8usize, 12, 16, 20, 24]);
             let rate = match r.below(5) { 0 => *r.pick(&[8000usize, 16000, 22050, 24000, 32000, 44100, 48000, 88200, 96000]),
                 1 => 1000 * (1 + r.below(96) as usize), 2 => 10 * (1 + r.below(9600) as usize), 3 => 1 + r.below(65535) as usize, _ => 65536 + r.below(30465) as usize };
-            let ra = r.below(1 << 31); let rb = r.below(1 << 36);
+            // a value drawn uniformly from one length class of the UTF-8-like code (1..7 bytes)
+            let class = |r: &mut Rng, top: u64| -> u64 { let lims = [0u64, 1 << 7, 1 << 11, 1 << 16, 1 << 21, 1 << 26, 1 << 31, 1 << 36];
+                let k = 1 + r.below(7) as usize; let lo = lims[k - 1]; let hi = lims[k].min(top); if hi <= lo { r.below(top) } else { lo + r.below(hi - lo) } };
+            let ra = if r.chance(1, 2) { class(&mut r, 1 << 31) } else { r.below(1 << 31) };
+            let rb = if r.chance(1, 2) { class(&mut r, 1 << 36) } else { r.below(1 << 36) };
             let (kind, num) = if r.chance(1, 2) {
                 ("F", *r.pick(&[0u64, 1, 127, 128, 2047, 2048, 65535, 65536, (1 << 21) - 1, 1 << 21, (1 << 26) - 1, 1 << 26, (1u64 << 31) - 1, ra]))
             } else {
@@ -71,6 +81,21 @@ pub fn gen(seed: u64, n: usize, out: &mut String) {
 pub fn run(id: &str, rest: &str) -> String {
     let t: Vec<&str> = rest.split(' ').collect();
     match t[0] {
+        "M" => {
+            let (rate, ch, bps): (usize, usize, usize) = (t[1].parse().unwrap(), t[2].parse().unwrap(), t[3].parse().unwrap());
+            let info = match flacenc::component::StreamInfo::new(rate, ch, bps) { Ok(i) => i, Err(_) => return format!("{} err", id) };
+            let mut s = flacenc::component::Stream::with_stream_info(info);
+            if t[4] != "-" {
+                for b in t[4].split(',') {
+                    let (tag, len) = b.split_once(':').unwrap(); let (tag, len): (usize, usize) = (tag.parse().unwrap(), len.parse().unwrap());
+                    let data: Vec<u8> = (0..len).map(|j| ((tag * 31 + j * 7) % 256) as u8).collect();
+                    match flacenc::component::MetadataBlockData::new_unknown(tag as u8, &data) { Ok(m) => s.add_metadata_block(m), Err(_) => return format!("{} err", id) }
+                }
+            }
+            let mut a = MemSink::<u8>::new(); let mut cs = CountSink(0);
+            if s.write(&mut a).is_err() || s.write(&mut cs).is_err() { return format!("{} write-err count={}", id, s.count_bits()); }
+            format!("{} ok count={} written={} written64={} {} same=1", id, s.count_bits(), a.len(), cs.0, hex(a.as_slice()))
+        }
         // E <ENC body>: a stream made by the encoder (single thread); count_bits against the bits a counting sink
         // receives, for every frame and for the stream.  Used by the targeted search (quotient sums around 2^32
         // reached through the encoder, which builds residuals without the constructor's checks).
